@@ -4,7 +4,7 @@ import ast
 import z3
 from .values import (Ref, NULL, INT, BOOL, STR, sort_of, V, VInt, VBool, VStr,
                      VRef, VNone, NONE, VTuple, VPy, VClass, VExc, VFunc,
-                     VTerm, VEnum, EnumDesc)
+                     VTerm, VEnum, EnumDesc, VAtom, ATOM)
 from .state import (State, Decider, Obligation, Unsupported, PathEnd, PyRaise,
                     fresh, fresh_name)
 from . import models
@@ -12,10 +12,13 @@ from .common import *
 from .common import _Return, _Break, _Continue
 from .builtins import BuiltinsMixin
 from .stmts import StmtMixin
+from .dicts import DictMixin
+from .values import split_top
 
 class LoopSpec:
     def __init__(self, invariants=(), modifies=None, decreases=None,
-                 unroll=None, assigns=None):
+                 unroll=None, assigns=None, exhaust_lemma=None):
+        self.exhaust_lemma = exhaust_lemma   # (description, expr-string)
         self.invariants = list(invariants)   # [(label, expr-string)]
         self.modifies = modifies             # heap fields havocked (None=auto)
         self.decreases = decreases           # expr-string or None
@@ -123,7 +126,7 @@ class Universe:
         return None
 
 
-class Interp(BuiltinsMixin, StmtMixin):
+class Interp(BuiltinsMixin, StmtMixin, DictMixin):
     def __init__(self, uni, decider):
         self.uni = uni
         self.dec = decider
@@ -146,6 +149,8 @@ class Interp(BuiltinsMixin, StmtMixin):
             return VStr(fresh(name, STR))
         if head == "none":
             return NONE
+        if head == "atom":
+            return VAtom(fresh(name, ATOM))
         if head.startswith("enum:"):
             e = fresh(name, INT)
             desc = self.uni.enums[head[5:]]
@@ -158,8 +163,11 @@ class Interp(BuiltinsMixin, StmtMixin):
         head, arg = tag_parts(tag)
         if head == "list":
             return VRef(ref, "list", arg)
-        if head in ("set", "dict"):
+        if head == "set":
             return VRef(ref, head, arg)
+        if head == "dict":
+            k, v = split_top(arg)
+            return VRef(ref, head, (k.strip(), v.strip()))
         return VRef(ref, head, self.uni.list_classes.get(head))
 
     def from_field(self, name, e):
@@ -200,7 +208,9 @@ class Interp(BuiltinsMixin, StmtMixin):
         if isinstance(v, VNone):
             return z3.BoolVal(False)
         if isinstance(v, VRef):
-            if v.cls in ("list", "dict", "set") or v.elem is not None:
+            if v.cls in ("dict", "set"):
+                return z3.And(v.e != NULL, self.card(v, st, link=True) > 0)
+            if v.cls == "list" or v.elem is not None:
                 return z3.And(v.e != NULL, self.length(v, st) > 0)
             return v.e != NULL
         if isinstance(v, VTuple):
@@ -209,6 +219,8 @@ class Interp(BuiltinsMixin, StmtMixin):
             return z3.BoolVal(bool(v.obj))
         if isinstance(v, (VClass, VFunc, VExc, VTerm)):
             return z3.BoolVal(True)
+        if isinstance(v, VAtom):
+            raise Unsupported("truthiness of an atom (name string)")
         if isinstance(v, VEnum):
             return z3.BoolVal(True)
         raise Unsupported(f"truthiness of {v}")
@@ -228,7 +240,7 @@ class Interp(BuiltinsMixin, StmtMixin):
             return z3.IntVal(len(v.obj))
         if isinstance(v, VRef):
             if v.cls == "set" or v.cls == "dict":
-                return st.read("$card", v.e, "int")
+                return self.card(v, st)
             return st.read("$len", v.e, "int")
         raise Unsupported(f"len of {v}")
 
@@ -245,8 +257,7 @@ class Interp(BuiltinsMixin, StmtMixin):
 
     def elem_val(self, v, e):
         et = v.elem
-        head, arg = tag_parts(et)
-        if head in ("int", "bool", "str"):
+        if base_tag(et) != "ref":
             return wrap(e)
         return self.mkref(e, et)
 
@@ -287,7 +298,7 @@ class Interp(BuiltinsMixin, StmtMixin):
         return VRef(r, cls, elem)
 
     def to_z3(self, v):
-        if isinstance(v, (VInt, VBool, VStr, VRef, VEnum)):
+        if isinstance(v, (VInt, VBool, VStr, VRef, VEnum, VAtom)):
             return v.e
         if isinstance(v, VNone):
             return NULL
@@ -304,6 +315,8 @@ class Interp(BuiltinsMixin, StmtMixin):
                 return a.e == NULL
             return z3.BoolVal(False)
         if isinstance(a, VPy) and isinstance(b, VPy):
+            if isinstance(a.obj, tuple) and a.obj and a.obj[0] == "zset":
+                return a.obj[1] == b.obj[1]
             return z3.BoolVal(a.obj is b.obj or a.obj == b.obj)
         if isinstance(a, VClass) and isinstance(b, VClass):
             return z3.BoolVal(a.name == b.name)
@@ -572,6 +585,10 @@ class Interp(BuiltinsMixin, StmtMixin):
             x, y = self.as_int(a), self.as_int(b)
             return {ast.Lt: x < y, ast.LtE: x <= y, ast.Gt: x > y,
                     ast.GtE: x >= y}[type(op)]
+        if isinstance(a, VNone) or isinstance(b, VNone):
+            if fr.spec:
+                raise Unsupported("ordering comparison with None in a spec")
+            raise PyRaise(VExc("TypeError"))
         raise Unsupported(f"compare {type(op).__name__} on {a}, {b}")
 
     def contains(self, cont, item, st, fr):
@@ -580,21 +597,22 @@ class Interp(BuiltinsMixin, StmtMixin):
         if isinstance(cont, (VTuple,)):
             return z3.Or([self.equal(item, x, st) for x in cont.items] or
                          [z3.BoolVal(False)])
-        if isinstance(cont, VPy):
+        if isinstance(cont, VPy) and not (isinstance(cont.obj, tuple) and
+                                          cont.obj and cont.obj[0] in (
+                                              "zset", "dictkeys")):
             if isinstance(cont.obj, dict):
                 keys = list(cont.obj.keys())
             else:
                 keys = list(cont.obj)
             return z3.Or([self.equal(item, self.lift(k), st) for k in keys]
                          or [z3.BoolVal(False)])
-        if isinstance(cont, VRef) and cont.cls == "set":
-            return z3.Select(st.read("$set." + base_tag(cont.elem), cont.e,
-                                     f"set[{base_tag(cont.elem)}]"),
-                             self.to_z3(item))
-        if isinstance(cont, VRef) and cont.cls == "dict":
-            kt = base_tag(cont.elem[0])
-            return z3.Select(st.read("$dom." + kt, cont.e, f"set[{kt}]"),
-                             self.to_z3(item))
+        if isinstance(cont, VPy) and isinstance(cont.obj, tuple) and \
+                cont.obj and cont.obj[0] == "zset":
+            return z3.Select(cont.obj[1], self.to_z3(item))
+        if isinstance(cont, VRef) and cont.cls in ("set", "dict"):
+            if cont.elem is None:
+                return z3.BoolVal(False)     # still-empty, untyped container
+            return z3.Select(self.members(cont, st), self.to_z3(item))
         if isinstance(cont, VRef) and cont.elem is not None:
             # list membership: exists index with == (identity for refs
             # whose class keeps object.__eq__)
@@ -726,16 +744,9 @@ class Interp(BuiltinsMixin, StmtMixin):
                     raise PyRaise(VExc("IndexError"))
             return VStr(z3.SubString(obj.e, models.norm_index(idx.e, n), 1))
         if isinstance(obj, VRef) and obj.cls == "dict":
-            kt, vt = obj.elem
-            dom = st.read("$dom." + base_tag(kt), obj.e,
-                          f"set[{base_tag(kt)}]")
             if not fr.spec:
-                if not self.dec.branch(st, z3.Select(dom, self.to_z3(idx))):
-                    raise PyRaise(VExc("KeyError"))
-            mp = st.read(f"$map.{base_tag(kt)}.{base_tag(vt)}", obj.e,
-                         f"map[{base_tag(kt)},{base_tag(vt)}]")
-            e = z3.Select(mp, self.to_z3(idx))
-            return self.mkval(e, vt)
+                self.nonnull(obj, st, fr, "[]")
+            return self.dict_getitem(obj, idx, st, fr)
         if isinstance(obj, VRef) and obj.elem is not None:
             if not fr.spec:
                 self.nonnull(obj, st, fr, "[]")
@@ -809,6 +820,7 @@ class Interp(BuiltinsMixin, StmtMixin):
                 sub.old = fr.old
                 sub.result = fr.result
                 sub.entry_state = getattr(fr, "entry_state", None)
+                sub.head_state = getattr(fr, "head_state", None)
                 return self.ev(node.args[0], fr.old, sub)
             if name in self.uni.preds:
                 params, text = self.uni.preds[name]
@@ -819,7 +831,37 @@ class Interp(BuiltinsMixin, StmtMixin):
                             spec=True)
                 sub.old, sub.result = fr.old, fr.result
                 sub.entry_state = getattr(fr, "entry_state", None)
+                sub.head_state = getattr(fr, "head_state", None)
                 return self.ev(parse_expr(text), st, sub)
+        # copy.copy / copy.deepcopy
+        if isinstance(node.func, ast.Attribute) and \
+                isinstance(node.func.value, ast.Name) and \
+                node.func.value.id == "copy" and "copy" not in fr.env and \
+                node.func.attr in ("copy", "deepcopy"):
+            arg = self.ev(node.args[0], st, fr)
+            if node.func.attr == "deepcopy":
+                return self.deepcopy(arg, st, fr)
+            if isinstance(arg, VRef) and arg.cls in ("set", "dict"):
+                return (self.setop if arg.cls == "set" else self.dictop)(
+                    arg, "copy", [], {}, st, fr)
+            if isinstance(arg, VRef) and arg.elem is not None:
+                return self.contop(arg, "copy", [], {}, st, fr)
+            raise Unsupported(f"copy.copy of {arg}")
+        if fr.spec and isinstance(node.func, ast.Name) and \
+                node.func.id in ("entry", "head"):
+            es = getattr(fr, "entry_state" if node.func.id == "entry"
+                         else "head_state", None)
+            if es is None:
+                raise Unsupported(f"{node.func.id}() outside a loop "
+                                  f"invariant")
+            sub = Frame(fr.func, fr.cls, fr.contract, env=dict(fr.env),
+                        spec=True)
+            sub.old, sub.result = fr.old, fr.result
+            sub.entry_state = getattr(fr, "entry_state", None)
+            sub.head_state = getattr(fr, "head_state", None)
+            if getattr(fr, "head_env", None) and node.func.id == "head":
+                sub.env.update(fr.head_env)
+            return self.ev(node.args[0], es, sub)
         # super().method(...)
         if isinstance(node.func, ast.Attribute) and \
                 isinstance(node.func.value, ast.Call) and \
@@ -840,7 +882,7 @@ class Interp(BuiltinsMixin, StmtMixin):
         for k in node.keywords:
             if k.arg is None:
                 raise Unsupported("**kwargs")
-            kwargs[k.arg] = self.ev(k.value, st, fr)
+            kwargs[k.arg] = self.lazy_or_eval(fn, k.value, st, fr)
         return self.call(fn, args, kwargs, st, fr, node)
 
     def lazy_or_eval(self, fn, a, st, fr):
@@ -868,7 +910,10 @@ class Interp(BuiltinsMixin, StmtMixin):
                 return self.call_function(fn.fn, None, None, args, kwargs,
                                           st, fr, relpath=fn.relpath)
             if k == "builtin":
-                return getattr(self, "bi_" + fn.name)(args, kwargs, st, fr)
+                meth = getattr(self, "bi_" + fn.name, None)
+                if meth is None:
+                    raise Unsupported(f"builtin {fn.name}()")
+                return meth(args, kwargs, st, fr)
             if k == "contop":
                 return self.contop(fn.recv, fn.name, args, kwargs, st, fr)
             if k == "strop":
